@@ -203,6 +203,10 @@ E = {'k': 'dict', 'od': False, 'id': 1, 'items': []}
 MIXED = ['Dict', False, [[['Str', 'id'], ['Type', 'int']], [['Lit', 1], ['Type', 'str']], [['Lit', None], ['Type', 'object']]]]
 
 
+def FZ(*items):
+    return {'k': 'set', 'fz': True, 'id': 0, 'items': list(items)}
+
+
 def corpus():
     t = {'k': 'dict', 'od': False, 'id': 1, 'items': [['id', 1], ['name', 'alice']]}
     return [
@@ -223,6 +227,17 @@ def corpus():
         {'target': {'k': 'list', 'id': 1, 'items': [{'k': 'dict', 'od': False, 'id': 2, 'items': [['k', 2]]}, {'k': 'dict', 'od': False, 'id': 3, 'items': []}]},
          'spec': ['Match', ['List', [MIXED, ['Dict', False, [[['Type', 'str'], ['Type', 'int']]]]]], None]},
         {'target': {'k': 'dict', 'od': False, 'id': 1, 'items': [['id', 1]]}, 'spec': ['Match', MIXED, None]},
+        # an Optional key is an EQUALITY key whatever its constant is: a frozenset constant is compared with ==, not matched element-wise
+        {'target': {'k': 'dict', 'od': False, 'id': 1, 'items': [['name', 'x'], [FZ('r'), 'yes']]},
+         'spec': ['Match', ['Dict', False, [[['Str', 'name'], ['Type', 'str']], [['Optional', FZ('r', 'w'), ['Lit', 'none']], ['Type', 'str']]]], None]},
+        {'target': {'k': 'dict', 'od': False, 'id': 1, 'items': [[FZ(), 1]]},
+         'spec': ['Match', ['Dict', False, [[['Optional', FZ('r', 'w'), None], ['Type', 'int']]]], None]},
+        {'target': {'k': 'dict', 'od': False, 'id': 1, 'items': [[FZ(), 1]]},
+         'spec': ['Match', ['Dict', False, [[['Optional', FZ('r', 'w'), None], ['Type', 'int']]]], ['Lit', 'dflt']]},
+        {'target': {'k': 'dict', 'od': False, 'id': 1, 'items': [[FZ('r', 'w'), 1]]},
+         'spec': ['Match', ['Dict', False, [[['Optional', FZ('r', 'w'), None], ['Type', 'int']]]], None]},
+        {'target': {'k': 'dict', 'od': False, 'id': 1, 'items': [['id', 1], [{'k': 'tuple', 'id': 0, 'items': ['acl', FZ('w')]}, 7]]},
+         'spec': ['Match', ['Dict', False, [[['Optional', {'k': 'tuple', 'id': 0, 'items': ['acl', FZ('r', 'w')]}, None], ['Type', 'int']], [['Str', 'id'], ['Type', 'int']]]], None]},
     ]
 
 
